@@ -231,69 +231,105 @@ theorem tbGeodesicInterpolate_spec (A : Arith D) (Am : Ambient S D)
 
 /-! ## `ConstrainedMotionValidator::checkMotion` (all three spaces) -/
 
-/-- [AF] two-argument form: `true` iff `isSatisfied(s2)` **and** the geodesic (asked with
-`interpolate = false`, after the satisfaction test) reached the target. -/
-theorem checkMotion_iff (isSat : σ → S → Bool × σ) (geo : Geo σ S) (s : σ) (s1 s2 : S) :
-    (checkMotion1 isSat geo s s1 s2).1 = true ↔
-      (isSat s s2).1 = true ∧ (geo (isSat s s2).2 s1 s2 false).1 = true := by
+/-- [AF] two-argument form (code after a7ee00eca): `true` iff `isValid(s2)`, then `isSatisfied(s2)`,
+then the geodesic (asked with `interpolate = false`) reached the target — in that order, each only
+asked when the previous one said yes. -/
+theorem checkMotion_iff (isValid isSat : σ → S → Bool × σ) (geo : Geo σ S) (s : σ) (s1 s2 : S) :
+    (checkMotion1 isValid isSat geo s s1 s2).1 = true ↔
+      (isValid s s2).1 = true ∧ (isSat (isValid s s2).2 s2).1 = true ∧
+        (geo (isSat (isValid s s2).2 s2).2 s1 s2 false).1 = true := by
   unfold checkMotion1
-  by_cases h : (isSat s s2).1 = true
-  · simp [h]
-  · simp [h]
+  by_cases hv : (isValid s s2).1 = true
+  · by_cases h : (isSat (isValid s s2).2 s2).1 = true
+    · simp [hv, h]
+    · simp [hv, h]
+  · simp [hv]
 
-/-- [AF] three-argument form: `true` iff the geodesic reached, stored at least one state, and
-`isSatisfied(s2)` (asked afterwards). -/
-theorem checkMotion_lastValid_iff (A : Arith D) (Am : Ambient S D) (isSat : σ → S → Bool × σ)
+theorem endStateOk_iff (isSat isValid : σ → S → Bool × σ) (reached : Bool) (s : σ) (s2 : S) :
+    (endStateOk isSat isValid reached s s2).1 = true ↔
+      reached = true ∧ (isSat s s2).1 = true ∧ (isValid (isSat s s2).2 s2).1 = true := by
+  unfold endStateOk
+  cases reached
+  · simp
+  · by_cases h : (isSat s s2).1 = true
+    · simp [h]
+    · simp [h]
+
+/-- [AF] three-argument form (after a7ee00eca): `true` iff the geodesic reached, stored at least one
+state, and then `isSatisfied(s2)` and `isValid(s2)` (asked afterwards, in that order). -/
+theorem checkMotion_lastValid_iff (A : Arith D) (Am : Ambient S D) (isSat isValid : σ → S → Bool × σ)
     (geo : Geo σ S) (hf : Bool) (s : σ) (s1 s2 : S) :
-    (checkMotion2 A Am isSat geo hf s s1 s2).verdict = true ↔
+    (checkMotion2 A Am isSat isValid geo hf s s1 s2).verdict = true ↔
       (geo s s1 s2 false).1 = true ∧ (geo s s1 s2 false).2.1 ≠ [] ∧
-        (isSat (geo s s1 s2 false).2.2 s2).1 = true := by
+        (isSat (geo s s1 s2 false).2.2 s2).1 = true ∧
+        (isValid (isSat (geo s s1 s2 false).2.2 s2).2 s2).1 = true := by
   unfold checkMotion2
   simp only
   cases hl : (geo s s1 s2 false).2.1 with
   | nil => simp
   | cons g0 rest =>
     simp only
-    split <;> simp [and_comm]
+    by_cases he : (endStateOk isSat isValid (geo s s1 s2 false).1 (geo s s1 s2 false).2.2 s2).1 = true
+    · have := (endStateOk_iff isSat isValid _ _ s2).mp he
+      simp [he, this]
+    · have hf' : (endStateOk isSat isValid (geo s s1 s2 false).1 (geo s s1 s2 false).2.2 s2).1 = false := by
+        simpa using he
+      have hn := (endStateOk_iff isSat isValid (geo s s1 s2 false).1 (geo s s1 s2 false).2.2 s2).not.mp he
+      simp only [hf', ↓reduceIte, Bool.false_eq_true, false_iff]
+      intro h
+      exact hn ⟨h.1, h.2.2.1, h.2.2.2⟩
 
-/-- [AF] `lastValid` is left untouched by a valid motion, and `lastValid.first`, when written,
-is `s1` or the last stored geodesic state. -/
-theorem checkMotion_lastValid_state (A : Arith D) (Am : Ambient S D) (isSat : σ → S → Bool × σ)
+/-- [AF] `lastValid` after a7ee00eca: untouched by a valid motion; on **every** failure
+`lastValid.second` is written (also when `lastValid.first` is null); `lastValid.first`, when
+written, is `s1` or the last stored geodesic state. -/
+theorem checkMotion_lastValid_state (A : Arith D) (Am : Ambient S D) (isSat isValid : σ → S → Bool × σ)
     (geo : Geo σ S) (hf : Bool) (s : σ) (s1 s2 : S) :
-    ((checkMotion2 A Am isSat geo hf s s1 s2).verdict = true →
-      (checkMotion2 A Am isSat geo hf s s1 s2).first = none ∧
-      (checkMotion2 A Am isSat geo hf s s1 s2).second = none) ∧
-    (∀ x, (checkMotion2 A Am isSat geo hf s s1 s2).first = some x →
+    ((checkMotion2 A Am isSat isValid geo hf s s1 s2).verdict = true →
+      (checkMotion2 A Am isSat isValid geo hf s s1 s2).first = none ∧
+      (checkMotion2 A Am isSat isValid geo hf s s1 s2).second = none) ∧
+    ((checkMotion2 A Am isSat isValid geo hf s s1 s2).verdict = false →
+      (checkMotion2 A Am isSat isValid geo hf s s1 s2).second.isSome = true ∧
+      ((checkMotion2 A Am isSat isValid geo hf s s1 s2).first.isSome = hf)) ∧
+    (∀ x, (checkMotion2 A Am isSat isValid geo hf s s1 s2).first = some x →
       x = s1 ∨ x ∈ (geo s s1 s2 false).2.1) := by
   unfold checkMotion2
   simp only
   cases hl : (geo s s1 s2 false).2.1 with
   | nil =>
-    refine ⟨by simp, ?_⟩
-    intro x hx
-    cases hf <;> simp at hx
-    exact Or.inl hx.symm
+    refine ⟨by simp, ?_, ?_⟩
+    · intro _; cases hf <;> simp
+    · intro x hx
+      cases hf <;> simp at hx
+      exact Or.inl hx.symm
   | cons g0 rest =>
     simp only
-    by_cases hc : ((geo s s1 s2 false).1 = false && hf) = true
-    · simp only [hc, ↓reduceIte]
-      simp only [Bool.and_eq_true] at hc
-      have hr : (geo s s1 s2 false).1 = false := by simpa using hc.1
-      refine ⟨by simp [hr], ?_⟩
-      intro x hx
-      simp only [Option.some.injEq] at hx
-      exact Or.inr (hx ▸ List.getLast_mem _)
-    · simp only [hc]
+    by_cases he : (endStateOk isSat isValid (geo s s1 s2 false).1 (geo s s1 s2 false).2.2 s2).1 = false
+    · simp only [he, ↓reduceIte]
+      refine ⟨by simp, ?_, ?_⟩
+      · intro _; cases hf <;> simp
+      · intro x hx
+        cases hf <;> simp at hx
+        exact Or.inr (hx ▸ List.getLast_mem _)
+    · simp only [he]
       simp
 
 /-- [EX] the reported fraction lies in `[0, 1]`: over every linearly ordered field, for every
-non-negative ambient distance and every geodesic oracle. -/
+non-negative ambient distance and every geodesic oracle (the `total > 0 ? … : 0` guard included). -/
 theorem lastValid_fraction_range {K : Type} [Field K] [LinearOrder K] [IsStrictOrderedRing K]
-    (eps : K) (Am : Ambient S K) (hnn : ∀ a b, 0 ≤ Am.dist a b) (isSat : σ → S → Bool × σ)
+    (eps : K) (Am : Ambient S K) (hnn : ∀ a b, 0 ≤ Am.dist a b) (isSat isValid : σ → S → Bool × σ)
     (geo : Geo σ S) (hf : Bool) (s : σ) (s1 s2 : S) (f : K)
-    (h : (checkMotion2 (fieldArith eps) Am isSat geo hf s s1 s2).second = some f) :
+    (h : (checkMotion2 (fieldArith eps) Am isSat isValid geo hf s s1 s2).second = some f) :
     0 ≤ f ∧ f ≤ 1 :=
-  fraction_range eps Am hnn isSat geo hf s s1 s2 f h
+  fraction_range eps Am hnn isSat isValid geo hf s s1 s2 f h
+
+/-- kernel-checked witness about the code **before** a7ee00eca: the end state satisfies the
+constraint, the traversal succeeds, `isValid(s2)` says no — the old two-argument form accepted the
+motion (it never asked), the code as it is now rejects it. -/
+theorem checkMotion_old_accepts_invalid_end :
+    (checkMotion1Old (fun (_ : Unit) (_ : Nat) => (true, ())) (fun _ _ _ _ => (true, [], ())) () 0 1).1 = true ∧
+    (checkMotion1 (fun (_ : Unit) (_ : Nat) => (false, ())) (fun _ _ => (true, ())) (fun _ _ _ _ => (true, [], ())) () 0 1).1
+      = false := by
+  constructor <;> rfl
 
 /-! ## `ProjectedStateSampler` (F10) -/
 
